@@ -59,8 +59,8 @@ isal_sha512_ctx_mgr_submit(ISAL_SHA512_HASH_CTX_MGR *mgr, ISAL_SHA512_HASH_CTX *
                 return ISAL_CRYPTO_ERR_NULL_MGR;
         if (ctx_in == NULL || ctx_out == NULL)
                 return ISAL_CRYPTO_ERR_NULL_CTX;
-        /* OK to have NULL source buffer when flags is HASH_FIRST or HASH_LAST */
-        if (buffer == NULL && (flags == ISAL_HASH_UPDATE || flags == ISAL_HASH_ENTIRE))
+        /* OK to have NULL source buffer when there is no data to hash (len == 0) */
+        if (buffer == NULL && len != 0)
                 return ISAL_CRYPTO_ERR_NULL_SRC;
 #endif
 
